@@ -47,6 +47,34 @@ pub fn programs06() -> Vec<(String, Program, bool)> {
         p.push(None, Stmt::Fill(Lit::hex(w)));
     }
     v.push(("data-words".into(), p, false));
+    // the first statement emits x0000 (a branch never taken), visible behaviour follows
+    let mut p = Program::default();
+    p.push(Some("first"), Stmt::Fill(Lit::dec(0)));
+    p.push(None, Stmt::Mem(PcRel::Ld, 0, Target::Label("first".into())));
+    p.push(None, Stmt::Named(0x26, "putn"));
+    p.push(None, Stmt::Mem(PcRel::Lea, 0, Target::Label("msg".into())));
+    p.push(None, Stmt::Named(0x22, "puts"));
+    p.push(None, Stmt::Named(0x25, "halt"));
+    p.push(Some("msg"), Stmt::Stringz(" ok".into()));
+    v.push(("zero-first-word".into(), p, false));
+    // every statement emits x0000 except the last two
+    let mut p = Program::default();
+    for _ in 0..3 {
+        p.push(None, Stmt::Fill(Lit::hex(0)));
+    }
+    p.push(None, Stmt::Named(0x26, "putn"));
+    p.push(None, Stmt::Named(0x25, "halt"));
+    v.push(("zero-words-then-output".into(), p, false));
+    // output that depends on the output mode: the register dump (boxed table or plain lines) and
+    // an escape character (shown raw or as a symbol)
+    let mut p = Program::default();
+    p.push(None, Stmt::Add(3, 3, Src2::Imm(Lit::dec(7))));
+    p.push(None, Stmt::Named(0x27, "reg"));
+    p.push(None, Stmt::Mem(PcRel::Ld, 0, Target::Label("esc".into())));
+    p.push(None, Stmt::Named(0x21, "out"));
+    p.push(None, Stmt::Named(0x25, "halt"));
+    p.push(Some("esc"), Stmt::Fill(Lit::hex(0x001B)));
+    v.push(("mode-dependent-output".into(), p, false));
     // without HALT; with an unknown trap (error exit); with the stack extension
     v.push(("no-halt".into(), Program::of(vec![Stmt::Add(1, 1, Src2::Imm(Lit::dec(1)))]), false));
     v.push(("unknown-trap".into(), Program::of(vec![Stmt::Trap(Lit::hex(0x99))]), false));
@@ -105,38 +133,47 @@ pub fn run(ctx: &Ctx) -> i32 {
             acc.violation(format!("C06/compile/bytes-{kind}"), format!("object file has {} bytes {:02x?}…, expected {} bytes {:02x?}… (2(n+1), big-endian, origin first)", bytes.len(), &bytes[..bytes.len().min(8)], want.len(), &want[..want.len().min(8)]), case);
             return;
         }
-        // run object file vs run source
-        let mut a1 = vec!["run", src.as_str(), "--minimal"];
-        a1.extend(&flag);
-        let mut a2 = vec!["run", dst.as_str(), "--minimal"];
-        a2.extend(&flag);
-        let r1 = lace.run(&a1, b"");
-        let r2 = lace.run(&a2, b"");
-        // the same bytes under the other documented extension
-        std::fs::copy(lace.cwd.join(&dst), lace.cwd.join(format!("{name}.obj"))).ok();
-        let obj = format!("{name}.obj");
-        let mut a3 = vec!["run", obj.as_str(), "--minimal"];
-        a3.extend(&flag);
-        let r3 = lace.run(&a3, b"");
-        // the bare-path form `lace FILE` (documented as a quick way to run a file)
-        let mut a4 = vec![dst.as_str(), "--minimal"];
-        a4.extend(&flag);
-        let r4 = lace.run(&a4, b"");
-        for (r, what) in [(&r2, "lc3"), (&r3, "obj"), (&r4, "bare-path")] {
-            if r.status != r1.status {
-                acc.violation(format!("C06/run/exit-status-differs/{what}"), format!("running the object file exits with {}, running the source with {}", r.status, r1.status), case.clone());
-                return;
+        // run object file vs run source, in both output modes (`--minimal` and the default)
+        let mut status = 0;
+        for mode in [&["--minimal"][..], &[][..]] {
+            let mode_name = if mode.is_empty() { "full-output" } else { "minimal" };
+            let mut a1 = vec!["run", src.as_str()];
+            a1.extend(mode);
+            a1.extend(&flag);
+            let mut a2 = vec!["run", dst.as_str()];
+            a2.extend(mode);
+            a2.extend(&flag);
+            let r1 = lace.run(&a1, b"");
+            let r2 = lace.run(&a2, b"");
+            // the same bytes under the other documented extension
+            std::fs::copy(lace.cwd.join(&dst), lace.cwd.join(format!("{name}.obj"))).ok();
+            let obj = format!("{name}.obj");
+            let mut a3 = vec!["run", obj.as_str()];
+            a3.extend(mode);
+            a3.extend(&flag);
+            let r3 = lace.run(&a3, b"");
+            // the bare-path form `lace FILE` (documented as a quick way to run a file)
+            let mut a4 = vec![dst.as_str()];
+            a4.extend(mode);
+            a4.extend(&flag);
+            let r4 = lace.run(&a4, b"");
+            for (r, what) in [(&r2, "lc3"), (&r3, "obj"), (&r4, "bare-path")] {
+                if r.status != r1.status {
+                    acc.violation(format!("C06/run/exit-status-differs/{what}/{mode_name}"), format!("running the object file exits with {}, running the source with {} ({mode_name})", r.status, r1.status), case.clone());
+                    return;
+                }
+                if normalize(&r.out(), name) != normalize(&r1.out(), name) {
+                    acc.violation(format!("C06/run/stdout-differs/{what}/{mode_name}"), format!("stdout of the object file {:?} vs the source {:?} ({mode_name})", r.out(), r1.out()), case.clone());
+                    return;
+                }
             }
-            if normalize(&r.out(), name) != normalize(&r1.out(), name) {
-                acc.violation(format!("C06/run/stdout-differs/{what}"), format!("stdout of the object file {:?} vs the source {:?}", r.out(), r1.out()), case.clone());
-                return;
-            }
+            status = r1.status;
         }
         acc.nontrivial();
         acc.gate("round-trip-agreed");
-        acc.outcome(format!("round-trip/status{}", r1.status));
+        acc.outcome(format!("round-trip/status{}", status));
         if i % 6 == 0 {
-            acc.sample(format!("rt{i}"), json!({"program": name, "bytes": want.len(), "first_bytes": format!("{:02x?}", &want[..want.len().min(8)]), "run_status": r1.status}));
+            acc.sample(format!("rt{i}"), json!({"program": name, "bytes": want.len(), "first_bytes": format!("{:02x?}", &want[..want.len().min(8)]), "run_status": status}));
         }
         for ext in ["asm", "lc3", "obj"] {
             let _ = std::fs::remove_file(lace.cwd.join(format!("{name}.{ext}")));
